@@ -10,7 +10,7 @@ from harness.build import scratch_build, env_for, PY, MachineryError
 from harness.common import Run, phash
 from harness.tlc import run_tlc
 
-C17_OPS = {"size", "psize", "i2d", "d2i", "d2iclamp", "pd2i", "pi2d", "runs"}
+C17_OPS = {"size", "psize", "i2d", "d2i", "d2iclamp", "d2ifar", "i2dfar", "pd2i", "pi2d", "runs"}
 
 
 def run_grid(scr, tier, seed, pure):
